@@ -14,7 +14,7 @@ use crate::gen::xorb::{build, scheme_name, xorb_spec_strategy, XorbSpec};
 use crate::refs::merkle as rm;
 use crate::refs::xorb::{self as rx, RefFooter};
 
-pub const RULE: &str = "xorbs of 1..1200 chunks (mostly <= 40) with chunk lengths 1..131072 from byte classes random / constant / periodic / small alphabet / f32 arrays / text / literal, under scheme none, lz4, bg4-lz4 or automatic, serialized with CasObject::serialize; oracle = original data and boundaries, independent reference decoder (own header walk, own BG4 regroup, own footer parse), cross-decoder agreement (sync single, sync multi, async single, async stream with generated fragmentation); second stream: BG4 split/regroup variants against the reference for every length 0..67 and generated larger lengths. non-trivial = xorb with >= 2 chunks of which >= 1 stored compressed and >= 1 stored through the incompressible fallback, or a BG4 case of length >= 5; distinct by fingerprint of the generated case";
+pub const RULE: &str = "xorbs of 1..1200 chunks (mostly <= 40) with chunk lengths 1..131072 from byte classes random / constant / periodic / small alphabet / f32 arrays / text / literal, under scheme none, lz4, bg4-lz4 or automatic, serialized with CasObject::serialize; oracle = original data and boundaries, independent reference decoder (own header walk, own BG4 regroup, own footer parse), cross-decoder agreement (sync single, sync multi, async single, async read, async stream with generated fragmentation, and the to-writer variant of each); second stream: BG4 split/regroup variants against the reference for every length 0..67 and generated larger lengths. non-trivial = xorb with >= 2 chunks of which >= 1 stored compressed and >= 1 stored through the incompressible fallback, or a BG4 case of length >= 5; distinct by fingerprint of the generated case";
 
 pub const ASSUMPTIONS: &[&str] = &[
     "LZ4 frame coding itself (lz4_flex) is trusted; the reference decoder uses the same third-party crate for frames",
@@ -208,11 +208,38 @@ fn rt_oracle(c: &RtCase, info: &mut Case) -> Result<(), String> {
         }
     }
     let n_pieces = pieces.len();
+    let pieces2: Vec<Result<bytes::Bytes, std::io::Error>> = pieces.iter().map(|p| Ok(p.as_ref().unwrap().clone())).collect();
     let (d_stream, idx_stream) = rt
         .block_on(cas_object::deserialize_async::deserialize_chunks_from_stream(futures::stream::iter(pieces)))
         .map_err(|e| format!("[sig:c07-stream] {e}"))?;
     if d_stream != d_sync || idx_stream != idx_sync {
         return Err(format!("[sig:c07-stream] stream decoder ({n_pieces} pieces) disagrees with the sync decoder"));
+    }
+    // the remaining entry points: the writer variants (sync, async read, stream) and the async-read decoder
+    let mut w_sync = Vec::new();
+    let (n_sync, idx_w) = cas_object::deserialize_chunks_to_writer(&mut Cursor::new(content), &mut w_sync).map_err(|e| format!("[sig:c07-sync-writer] {e}"))?;
+    if w_sync != d_sync || idx_w != idx_sync || n_sync != content.len() {
+        return Err(format!("[sig:c07-sync-writer] deserialize_chunks_to_writer disagrees with deserialize_chunks (consumed {n_sync} of {} bytes)", content.len()));
+    }
+    let (d_ar, idx_ar) = rt
+        .block_on(cas_object::deserialize_async::deserialize_chunks_from_async_read(&mut Cursor::new(content.to_vec())))
+        .map_err(|e| format!("[sig:c07-async-read] {e}"))?;
+    if d_ar != d_sync || idx_ar != idx_sync {
+        return Err("[sig:c07-async-read] deserialize_chunks_from_async_read disagrees with the sync decoder".into());
+    }
+    let mut w_ar = Vec::new();
+    let (n_ar, idx_war) = rt
+        .block_on(cas_object::deserialize_async::deserialize_chunks_to_writer_from_async_read(&mut Cursor::new(content.to_vec()), &mut w_ar))
+        .map_err(|e| format!("[sig:c07-async-read] {e}"))?;
+    if w_ar != d_sync || idx_war != idx_sync || n_ar != content.len() {
+        return Err("[sig:c07-async-read] deserialize_chunks_to_writer_from_async_read disagrees with the sync decoder".into());
+    }
+    let mut w_st = Vec::new();
+    let (n_st, idx_wst) = rt
+        .block_on(cas_object::deserialize_async::deserialize_chunks_to_writer_from_stream(futures::stream::iter(pieces2), &mut w_st))
+        .map_err(|e| format!("[sig:c07-stream] writer variant: {e}"))?;
+    if w_st != d_sync || idx_wst != idx_sync || n_st != content.len() {
+        return Err("[sig:c07-stream] deserialize_chunks_to_writer_from_stream disagrees with the sync decoder".into());
     }
 
     info.nontrivial_if(n >= 2 && stored_compressed >= 1 && stored_fallback >= 1);
